@@ -14,7 +14,7 @@ PROPS = {
         "partial": ["the round-trip, determinism and injectivity theorems are about the precedence-climbing reading of the regenerated table (binary and prefix operators, "
                     "?:, call / index / slice / member forms, any depth); that the generated LALR parser reads the same tree is decided by the metamorphic stream "
                     "(same printer, token for token)", "float literals: differential against strconv only",
-                    "string-literal unescaping: differential only"],
+                    "float literals aside, string literals are proved at the scanner level (string_literal_denotes_its_text: escape then scan is the identity, any text); raw strings: differential"],
     },
     "C01": {
         "gens": ["Recover"],
